@@ -292,7 +292,13 @@ class Reader(object):
             o = 0
         else:
             o = (int(off[1:3]) * 60 + int(off[4:6])) * 60 * (1 if off[0] == '+' else -1)
-        return ('dt', (y, mo, d, h, mi, sec, self._usec(m.group(7))), o, m.group(9))
+        n = ('dt', (y, mo, d, h, mi, sec, self._usec(m.group(7))), o, m.group(9))
+        if n[3] is not None:
+            from vf import tzref
+            why = tzref.check_zone_offset(n[3], n[1], n[2])
+            if why:
+                raise RefReject('zone-offset-mismatch', self.i, why)
+        return n
 
     def string(self):
         s = self.s
@@ -562,6 +568,7 @@ class Writer(object):
             cands.append(('exp-zero', base + 'e0'))
             cands.append(('leading-zero', ('-0' + base[1:]) if v < 0 else '0' + base))
             cands.append(('Exp-plus', base + 'E+0'))
+            cands.append(('exp-underscore', base + 'e0_0'))
         else:
             cands = [('repr', base)]
             if 'e' in base:
@@ -571,6 +578,9 @@ class Writer(object):
                     cands.append(('exp-nosign', mant + 'e' + ex[1:]))
                 if '.' not in mant:
                     cands.append(('exp-dot', mant + '.0e' + ex))
+                if len(ex.lstrip('+-')) >= 2:
+                    cands.append(('exp-underscore', mant + 'e' + ex[:-1] + '_' + ex[-1]))
+                cands.append(('exp-trailing-underscore', base + '_'))
             else:
                 cands.append(('trailing-zeros', base + '00'))
                 cands.append(('exp-shift', self._shift(base)))
